@@ -87,6 +87,12 @@ impl CState {
     fn bytes(&self, s: &str, input: &[u8]) -> Vec<u8> {
         if s == "@" {
             input.to_vec()
+        } else if let Some(rest) = s.strip_prefix('@') {
+            let mut it = rest.split(':');
+            let off: usize = it.next().unwrap().parse().unwrap();
+            let len: usize = it.next().unwrap().parse().unwrap();
+            let end = (off.saturating_add(len)).min(input.len());
+            input[off.min(end)..end].to_vec()
         } else {
             unhex(s)
         }
